@@ -5,7 +5,7 @@ CONSTANTS
   MaxAdv = 4
   MaxCbOps = 1
   Variant = "intended"
-  Depth = 7
+  Depth = 6
   Preload = TRUE
   Focus = TRUE
   Kinds = {"event"}
